@@ -1774,6 +1774,7 @@ theorem runInv_step (B : Nat) (s : Sys F) (e : Ev) (h : RunInv B s) (hm : KeepsM
   | setCfg cfg => exact ⟨hup h.pot, hm.1, hm.2, h.reg⟩
   | crit d => exact ⟨hup h.pot, h.classic, h.guard, h.reg⟩
   | failNext c => exact ⟨hup h.pot, h.classic, h.guard, h.reg⟩
+  | failBind c => exact ⟨hup h.pot, h.classic, h.guard, h.reg⟩
 
 /-- The states of a run: the left fold of `step` (`Sys.run … .1` is this fold: `SysLevel.run_eq_foldl`). -/
 def runS (s : Sys F) (evs : List Ev) : Sys F := evs.foldl (fun s e => (step s e).1) s
